@@ -20,6 +20,7 @@ type G struct {
 	done    bool
 	started bool
 	crashed *goPanic
+	watchdog bool
 	fn      Value
 	args    []Value
 }
